@@ -75,6 +75,55 @@ theorem joinOn_semi_anti_partition (e : Expr) (ln rn : Nat) (ls rs semi anti : L
     semi.Sublist ls ∧ anti.Sublist ls ∧ semi.length + anti.length = ls.length :=
   joinOnRows_semi_anti e ln rn ls rs semi anti hs ha
 
+/-- the condition as a plain test on a pair of rows (false where it is null) -/
+def holds (e : Expr) (l r : Row) : Bool :=
+  match condHolds e l r with
+  | .ok b => b
+  | .error _ => false
+
+/-- SPEC: the nested-loop reference of a join on a condition -/
+def joinOnSpec (how : How) (e : Expr) (ln rn : Nat) (ls rs : List Row) : List Row :=
+  let inner := ls.flatMap fun l => (rs.filter (holds e l)).map (l ++ ·)
+  let leftPart := ls.flatMap fun l =>
+    if (rs.filter (holds e l)).isEmpty then [l ++ nullRow rn] else (rs.filter (holds e l)).map (l ++ ·)
+  let unmatchedRight := (rs.filter fun r => ls.all fun l => !holds e l r).map (nullRow ln ++ ·)
+  match how with
+  | .inner => inner
+  | .left => leftPart
+  | .right => inner ++ unmatchedRight
+  | .full => leftPart ++ unmatchedRight
+  | .semi => ls.filter fun l => rs.any (holds e l)
+  | .anti => ls.filter fun l => !rs.any (holds e l)
+
+-- OBLIGATION: PysparklingVerif.C15.joinOn_is_nested_loop
+/-- whenever the condition can be evaluated on every pair, a join on a condition returns exactly the nested-loop reference, in
+its order: one row per matching pair, a null-padded row for every unmatched left row (left, full) and, after them, for every
+unmatched right row (right, full), the left rows with / without a match for semi / anti -/
+theorem joinOn_is_nested_loop (how : How) (e : Expr) (ln rn : Nat) (ls rs out : List Row)
+    (h : joinOnRows how e ln rn ls rs = .ok out) : out = joinOnSpec how e ln rn ls rs := by
+  rw [joinOnRows_ok_pure (holds e) (fun l r b hb => by unfold holds; rw [hb]) h]
+  cases how with
+  | inner => simp only [joinOnSpec, joinOnLeft, List.append_nil]
+  | right => simp only [joinOnSpec, joinOnLeft]
+  | left => simp only [joinOnSpec, joinOnLeft, List.append_nil]
+  | full => simp only [joinOnSpec, joinOnLeft]
+  | semi =>
+    simp only [joinOnSpec, joinOnLeft, List.append_nil, filter_isEmpty_eq]
+    rw [← flatMap_ite_singleton]
+    congr 1
+    funext l
+    cases rs.any (holds e l) <;> rfl
+  | anti =>
+    simp only [joinOnSpec, joinOnLeft, List.append_nil, filter_isEmpty_eq]
+    rw [← flatMap_ite_singleton]
+
+-- OBLIGATION: PysparklingVerif.C15.joinOn_defined
+/-- … and it is defined exactly when the condition evaluates to a boolean or null on every pair of rows -/
+theorem joinOn_defined (how : How) (e : Expr) (ln rn : Nat) (ls rs : List Row) :
+    (∃ out, joinOnRows how e ln rn ls rs = .ok out) ↔ ∀ l ∈ ls, ∀ r ∈ rs, ∃ b, condHolds e l r = .ok b := by
+  rw [joinOnRows_defined_iff, mapM_ok_iff]
+  exact forall_congr' fun l => imp_congr_right fun _ => mapM_ok_iff _ rs
+
 -- OBLIGATION: PysparklingVerif.C15.joinOn_old_code
 /-- the code as it was ignored the join type: on this input its semi-join rows have four values under two columns -/
 theorem joinOn_old_code :
@@ -88,13 +137,13 @@ theorem joinOn_old_code :
 arithmetic-progression length -/
 theorem sources_consistent (names : List String) (rows : List Row) (d : DF) (start stop : Int) (step : Nat) :
     (create names rows = .ok d → d.Consistent ∧ d.names = names ∧ d.rows = rows) ∧
-    -- `range` of an empty range (stop ≤ start) or with step 0 raises in the code (the schema is inferred from the data;
-    -- `range()` rejects a zero step): the claims about `range` are made for non-empty ranges with a positive step only
-    (start < stop → 0 < step →
+    -- `range()` rejects a zero step (as Python's `range` does): the claims about `range` are made for a positive step. An
+    -- empty range (stop ≤ start) is an empty frame with the column `id` (REPAIRED: its schema was inferred from the data)
+    (0 < step →
       (range start stop step).Consistent ∧ (range start stop step).names = ["id"] ∧
-      (range start stop step).rows ≠ [] ∧
-      ((range start stop step).rows.length : Int) = ((stop - start).toNat + step - 1) / step) := by
-  refine ⟨fun hc => ?_, fun hlt hs => ⟨?_, rfl, ?_, ?_⟩⟩
+      ((range start stop step).rows.length : Int) = ((stop - start).toNat + step - 1) / step ∧
+      (start < stop → (range start stop step).rows ≠ []) ∧ (stop ≤ start → (range start stop step).rows = [])) := by
+  refine ⟨fun hc => ?_, fun hs => ⟨?_, rfl, ?_, fun hlt => ?_, fun hle => ?_⟩⟩
   · unfold create at hc
     split at hc
     · rename_i hall
@@ -107,6 +156,12 @@ theorem sources_consistent (names : List String) (rows : List Row) (d : DF) (sta
     rfl
   · unfold range
     rw [if_neg (Nat.ne_of_gt hs)]
+    simp only [List.length_map, List.length_range]
+    rw [Int.natCast_ediv]
+    congr 1
+    omega
+  · unfold range
+    rw [if_neg (Nat.ne_of_gt hs)]
     intro h
     have hl := congrArg List.length h
     simp only [List.length_map, List.length_range, List.length_nil] at hl
@@ -116,10 +171,10 @@ theorem sources_consistent (names : List String) (rows : List Row) (d : DF) (sta
     omega
   · unfold range
     rw [if_neg (Nat.ne_of_gt hs)]
-    simp only [List.length_map, List.length_range]
-    rw [Int.natCast_ediv]
-    congr 1
-    omega
+    have h0 : (stop - start).toNat = 0 := by omega
+    have : ((stop - start).toNat + step - 1) / step = 0 := by
+      rw [h0]; exact Nat.div_eq_of_lt (by omega)
+    rw [this]; rfl
 
 /-- operations whose schema is fixed by the input schema alone -/
 def Static : Op → Prop
